@@ -13,7 +13,7 @@ require (
 
 require (
 	github.com/anishathalye/porcupine v1.3.0
-	github.com/seekerror/build v1.0.2 // indirect
+	github.com/seekerror/build v1.0.2
 	golang.org/x/exp v0.0.0-20231214170342-aacd6d4b4611 // indirect
 )
 
